@@ -70,7 +70,7 @@ func monC10(c *Case, tr *Trace) []Violation {
 	allAcceptedFinished := true
 	for i := range c.RPCs {
 		k, onWire := ix.keyOf[i]
-		nsRecv, closeEmit := -1, -1
+		nsRecv, closeEmit, closeRecv := -1, -1, -1
 		if onWire {
 			for _, f := range ix.byStream[k] {
 				if f.F.Kind == "new_stream" && f.SendErr == "" {
@@ -78,6 +78,7 @@ func monC10(c *Case, tr *Trace) []Violation {
 				}
 				if f.F.Kind == "close" && closeEmit < 0 {
 					closeEmit = f.Step
+					closeRecv = f.Received
 				}
 			}
 		}
@@ -112,6 +113,10 @@ func monC10(c *Case, tr *Trace) []Violation {
 			}
 		case refusedByRule:
 			if stopFired >= 0 && nsRecv > stopFired {
+				continue
+			}
+			if stopFired >= 0 && term != nil && (closeRecv < 0 || closeRecv > term.End) {
+				// the hard Stop took the tunnel away before the refusal reached the caller's end: any failure is legitimate
 				continue
 			}
 			if term == nil {
